@@ -179,6 +179,43 @@ def gen_cases(ctx):
         while np_ < nc_:
             acts.append("p%d" % val); val += 1; np_ += 1
         cases.append("SIG %d %s" % (k, " ".join(acts)))
+    # configuration and life cycle of a Chain: budgets just below / at / above one entry per block, entry sizes 1..16, block_count
+    # 0..5; op sequences Add / operator>> / Wait / Start / reuse, including rounds in which the chain owns no thread and an
+    # explicit Start() on a chain that is still running
+    for _ in range(ctx.pick(70, 900)):
+        es = rng.choice([1, 2, 3, 4, 8, 8, 12, 16, 0])
+        bc = rng.choice([1, 2, 3, 4, 4, 5, 0])
+        need = es * bc
+        total = max(0, rng.choice([need, need, need - 1, need + 1, max(0, es - 1), es, need - es, 2 * need, 3 * need + rng.below(max(1, es)), need * rng.range(1, 9) + rng.below(need + 1)]))
+        ops = []
+        if es and bc and total >= need:
+            per = total // (bc * es)
+            for _ in range(rng.choice([1, 2, 2, 3, 4])):
+                kind = rng.choice(["T", "T", "U", "M", "M", "-"])
+                if kind == "M":
+                    if bc < 2:
+                        kind = "T"
+                    else:
+                        dblocks = rng.range(1, bc - 1)                       # blocks the Stream writer emits (the last may be empty): fits without a consumer
+                        ops.append("M%d" % ((dblocks - 1) * per + rng.below(per)))
+                if kind in "TU":
+                    ops.append("%s%d" % (kind, rng.choice([0, 1, per, per * bc, per * bc + 1, rng.range(0, 40 * per + 3) % 300])))
+                end = rng.choice(["W", "W", "w", "S"])
+                if kind == "-" and end == "S" and (not ops or ops[-1] in ("W", "w")):
+                    end = "W"                                               # Start() on a stopped chain must be followed by a round (below)
+                ops.append(end)
+            if ops[-1] == "S":
+                ops += ["T%d" % rng.range(0, 30 * per), "W"]
+            # an explicit Start() must be followed by a round that has a source (a started chain without one never ends: by design)
+            fixed = []
+            for i, o in enumerate(ops):
+                fixed.append(o)
+                if o == "S" and (i + 1 >= len(ops) or ops[i + 1][0] not in "TUM"):
+                    fixed.append("U%d" % rng.range(0, 20 * per))
+            ops = fixed + ([] if fixed and fixed[-1] == "W" else ["W"])
+        else:
+            ops = ["T%d" % rng.range(0, 50), "W"]
+        cases.append("LIFE %d %d %d %d %s" % (es, bc, total, rng.below(1 << 30) + 1, " ".join(ops)))
     # handlers that throw: the pool must end (abort) or handle everything, never drop the request and carry on
     for _ in range(ctx.pick(12, 120)):
         n = rng.choice([1, 2, 5, rng.range(0, 120)])
@@ -356,6 +393,53 @@ def oracle_sig(case, out):
     return None
 
 
+def life_hash(n, es, rnd):
+    h = 1469598103934665603
+    for i in range(n):
+        for j in range(es):
+            h = ((h ^ ((i * 31 + j * 7 + rnd * 13 + 1) & 0xff)) * 1099511628211) & 0xFFFFFFFFFFFFFFFF
+    return h
+
+
+def oracle_life(case, out):
+    """From chain.hh / the property text: a configuration with zero entry size, zero blocks or less than one entry per block is
+    refused (ChainConfigException), otherwise block size = total / (block_count * entry_size) * entry_size; when Wait() or Start()
+    returns every round started before it has delivered exactly its own entries, in order; after Wait() the chain is not running,
+    after Start() it is."""
+    f = case.split()
+    es, bc, total, ops = int(f[1]), int(f[2]), int(f[3]), f[5:]
+    if es == 0 or bc == 0 or total < es * bc:
+        return None if out == "config-exception" else "configuration entry_size=%d block_count=%d total_memory=%d (below one entry per block) was not refused: %s" % (es, bc, total, out[:120])
+    toks = out.split()
+    bs = total // (bc * es) * es
+    if not out.startswith("bs=") and out != "config-exception":
+        return "the op sequence did not complete on the real Chain: " + out[:300]
+    if not toks or toks[0] != "bs=%d" % bs:
+        return "block size: expected %d = total_memory / (block_count * entry_size) * entry_size, got %s" % (bs, out[:120])
+    reports = toks[1:]
+    rounds, ri, rnd = [], 0, 0
+    for o in ops:
+        if o[0] in "TU":
+            rounds.append((rnd, int(o[1:]))); rnd += 1
+        elif o[0] == "M":
+            rnd += 1
+        else:
+            if ri >= len(reports):
+                return "no report for op %s: %s" % (o, out[:200])
+            p = reports[ri].split(":"); ri += 1
+            if p[0] != o:
+                return "unparsable report %s" % reports[ri - 1]
+            want_run = "1" if o == "S" else "0"
+            if p[1] != "run=" + want_run:
+                return "after %s Running() is %s, must be %s" % ({"W": "Wait()", "w": "Wait(false)", "S": "Start()"}[o], p[1][4:], want_run)
+            got = dict(x.split("=") for x in p[3].split(";") if x)
+            for r, n in rounds:
+                exp = "%d.%x" % (n, life_hash(n, es, r))
+                if got.get("r%d" % r) != exp:
+                    return "when %s returned, round %d had delivered %s entries.hash; it wrote %s" % (o, r, got.get("r%d" % r), exp)
+    return None
+
+
 def oracle_pool(case, out):
     f = case.split()
     n = int(f[3])
@@ -391,6 +475,12 @@ def check(ctx, exe, cases, with_model=True):
         f = c.split()
         kind = f[0] + (":" + f[4].split(":")[0] if f[0] == "PCQ" else "")
         kinds[kind] = kinds.get(kind, 0) + 1
+        if f[0] == "LIFE":
+            m = oracle_life(c, o)
+            if m:
+                spec_fail.append(("chain:config" if m.startswith("configuration") or m.startswith("block size") else
+                                  "chain:lifecycle:hang" if "HANG" in m else "chain:lifecycle", c, o[:600], m))
+            continue
         if f[0] == "SIG":
             m = oracle_sig(c, o)
             if m:
@@ -468,19 +558,23 @@ def check(ctx, exe, cases, with_model=True):
         except vlib.ModelBroken as e:
             model_broken = str(e)
     # chains and pools: the extracted atomic-FIFO models under their own seed-driven schedules must deliver the same result
-    cp = [(c, o) for c, o in zip(cases, iout) if c.split()[0] in ("CHAIN", "CHAINS", "CHAINF", "CHAINFS", "SIG", "POOL", "POOLF") and o.startswith("ok ")]
+    cp = [(c, o) for c, o in zip(cases, iout) if c.split()[0] in ("CHAIN", "CHAINS", "CHAINF", "CHAINFS", "SIG", "POOL", "POOLF") and o.startswith("ok ") or c.startswith("LIFE") and (o.startswith("bs=") or o == "config-exception")]
     if with_model and cp and model_broken is None:
         try:
             model = vlib.ocaml_model("C17")
             mo = vlib.run_lines(model, [c for c, _ in cp])
             for (c, o), m in zip(cp, mo):
-                di = dict(x.split("=") for x in o.split()[1:] if "=" in x)
-                dm = dict(x.split("=") for x in m.split()[1:] if "=" in x) if m.startswith("ok") else {}
+                if c.startswith("SIG") or c.startswith("LIFE"):
+                    if o.strip() != m.strip():
+                        mismatches.append((c, c, o, m))
+                    continue
+                di = dict(x.split("=", 1) for x in o.split()[1:] if "=" in x)
+                dm = dict(x.split("=", 1) for x in m.split()[1:] if "=" in x) if m.startswith("ok") else {}
                 if c.startswith("POOLF"):
                     if " ".join(o.split()[:2]) != " ".join(m.split()[:2]) or (o.startswith("ok finished") and o.split()[2] != m.split()[2]):
                         mismatches.append((c, c, o, m))
                     continue
-                if c.startswith("SIG"):
+                if c.startswith("SIG") or c.startswith("LIFE"):
                     if o.strip() != m.strip():
                         mismatches.append((c, c, o, m))
                     continue
